@@ -120,15 +120,19 @@ Definition mk_lut (first : Z) (data : list Z) (bits : Z) (expl : option string) 
 (* LUT.number_of_entries *)
 Definition lut_entries (l : lutds) : Z := if ld_n l =? 0 then 65536 else ld_n l.
 
-(* LUT.lut_data.  The pad test `bits == 8 and length % 2 == 1 and len(data) == length + 1`
-   evaluates len(data): TypeError when LUTData is a bare int *)
+(* LUT.lut_data.  The pad byte is stripped from byte values only; a bare int (VR US, one-entry
+   table read from a file) is the 16-bit word b0 + 256 * b1 and becomes a one-entry array
+   (numpy refuses a value > 255 for uint8: OverflowError) *)
 Definition lut_data (l : lutds) : res (list Z) :=
   if negb ((ld_bits l =? 8) || (ld_bits l =? 16)) then Err "RuntimeError"
   else
     let len := lut_entries l in
-    if (ld_bits l =? 8) && (len mod 2 =? 1) && ld_scalar l then Err "TypeError"
-    else
     let data := ld_bytes l in
+    if ld_scalar l then
+      let arr := dec16 data in
+      if (ld_bits l =? 8) && existsb (fun v => 256 <=? v) arr then Err "OverflowError"
+      else if zlen arr =? len then Ok arr else Err "RuntimeError"
+    else
     let data := if (ld_bits l =? 8) && (len mod 2 =? 1) && (zlen data =? len + 1)
                 then removelast data else data in
     let arr := if ld_bits l =? 8 then data else dec16 data in
